@@ -23,7 +23,9 @@ void *memcpy (void *dst, const void *src, size_t n) {
     VP_GHOST_T g;
     _Bool in = vp_G < n / sizeof (VP_GHOST_T);
     if (in) g = ((const VP_GHOST_T *) src)[vp_G];
+#ifndef VP_MEMCPY_NO_HAVOC
     __CPROVER_havoc_object (dst);
+#endif
     if (in) ((VP_GHOST_T *) dst)[vp_G] = g;
   }
   return dst;
